@@ -504,7 +504,7 @@ func (l *Lowerer) lowerCommon(t *Term) string {
 // ---------------------------------------------------------------- INT back end for BV-sorted terms
 
 func (l *Lowerer) iv(t *Term) (*big.Int, *big.Int) {
-	if r, ok := l.ivl[t]; ok {
+	if r, ok := l.ivl[t]; ok && r[0] != nil && r[1] != nil {
 		return r[0], r[1]
 	}
 	if t.IsConst() {
@@ -600,11 +600,11 @@ func (l *Lowerer) U(t *Term) (*lin, *big.Int, *big.Int) {
 			// b <= a is known for the machine values: use the canonical operands, no underflow possible
 			xe, ye := l.T(t.A[0]), l.T(t.A[1])
 			xl, xh := l.iv(t.A[0])
-			if !l.hasIv(t.A[0]) {
+			if !l.hasIv(t.A[0]) || xl == nil || xh == nil {
 				xl, xh = bigZero, maxOfW(t.W)
 			}
 			yl, yh := l.iv(t.A[1])
-			if !l.hasIv(t.A[1]) {
+			if !l.hasIv(t.A[1]) || yl == nil || yh == nil {
 				yl, yh = bigZero, maxOfW(t.W)
 			}
 			lo, hi := new(big.Int).Sub(xl, yh), new(big.Int).Sub(xh, yl)
